@@ -108,7 +108,7 @@ func enumDM(c *core.Ctx, classLen int, allLengths bool) {
 
 func c02Body(c *core.Ctx) {
 	defer seqPairs(c, "dm")
-	cl := pick(c, 5, 7)
+	cl := pick(c, 6, 7)
 	enumDM(c, cl, c.Thorough())
 	c.R.Bound("class_words", fmt.Sprintf("all words <= %d over %q", cl, dmClass))
 	c.R.Bound("bytes", "all 256 single bytes and all 65536 byte pairs")
